@@ -183,6 +183,36 @@ struct Limits : Family {
 					++pairs;
 				}
 			}
+			// several inconsistent frames in one file whose differences cancel (file-wide layer total == sum of counts), and layer
+			// lists that differ from the 7-bit count by a multiple of 256
+			for (unsigned c = 0; c < 128; c += 3) {
+				for (unsigned d = 1; d <= 6; ++d) {
+					ArtFile art{};
+					Animation an{};
+					Animation::Frame f1{}, f2{}, f3{};
+					f1.layerMetadata.count = static_cast<uint8_t>(c); f1.layers.resize(c + d);
+					f2.layerMetadata.count = static_cast<uint8_t>((c + d) & 127); f2.layers.resize(((c + d) & 127) >= d ? ((c + d) & 127) - d : 0);
+					f3.layerMetadata.count = 2; f3.layers.resize(2);
+					if (f2.layers.size() + d != f2.layerMetadata.count) continue;
+					an.frames.push_back(f1); an.frames.push_back(f3); an.frames.push_back(f2);
+					if (d % 2) { Animation an2{}; an2.frames.push_back(an.frames.back()); an.frames.pop_back(); art.animations.push_back(an); art.animations.push_back(an2); } else art.animations.push_back(an);
+					Out o = callLib(plan, [&] { Stream::DynamicMemoryWriter w; art.Write(w); }, &what);
+					if (o == OkOut) ctx.fail("C20.refuse", "ArtFile::Write of a file with two inconsistent frames (count " + std::to_string(c) + " with " + std::to_string(c + d) + " layers, count " + std::to_string(f2.layerMetadata.count) + " with " + std::to_string(f2.layers.size()) + " layers) succeeded");
+					++pairs;
+				}
+				for (unsigned m = 1; m <= 2; ++m) {
+					ArtFile art{};
+					Animation an{};
+					Animation::Frame f{};
+					f.layerMetadata.count = static_cast<uint8_t>(c);
+					f.layers.resize(c + 256 * m);
+					an.frames.push_back(f);
+					art.animations.push_back(an);
+					Out o = callLib(plan, [&] { Stream::DynamicMemoryWriter w; art.Write(w); }, &what);
+					if (o == OkOut) ctx.fail("C20.refuse", "ArtFile::Write of a frame with count " + std::to_string(c) + " and " + std::to_string(c + 256 * m) + " layers succeeded");
+					++pairs;
+				}
+			}
 			ctx.evaluations = pairs;
 			ctx.nontrivialEvals = pairs;
 			ctx.distinctEvals = pairs;
